@@ -161,3 +161,421 @@ Proof.
   - apply Ztrunc_add_le; [apply rnd_ge_0; lra | apply rnd_ge_0; lra | fold L; lra].
 Qed.
 End SlowStartBytes.
+
+(* ---- (2) invariants of every reachable state that the rounding-sensitive clauses need *)
+
+(* cwnd (and ssthresh) are never NaN, never negative, never -inf: +inf or finite >= 0 *)
+Definition cwnd_ok (c : f64) : Prop :=
+  c = B754_infinity false \/ (is_finite c = true /\ 0 <= B2R c).
+
+Lemma rust_min_ninf_l : forall b : f64, is_finite b = true ->
+  rust_min (B754_infinity true) b = B754_infinity true.
+Proof. intros b Fb. destruct b as [s|s| |s m e B]; try discriminate Fb; reflexivity. Qed.
+
+(* the common tail of on_ack / on_recovered: max(min(X, rwnd), 2.) for ANY float X *)
+Lemma finish_ok : forall X rw : f64, is_finite rw = true ->
+  is_finite (rust_max (rust_min X rw) f64_2) = true /\
+  2 <= B2R (rust_max (rust_min X rw) f64_2) <= Rmax (B2R rw) 2.
+Proof.
+  intros X rw Frw. destruct f64_2_correct as [F2 V2].
+  assert (Fin : forall Y : f64, is_finite Y = true -> B2R Y <= B2R rw ->
+            is_finite (rust_max Y f64_2) = true /\
+            2 <= B2R (rust_max Y f64_2) <= Rmax (B2R rw) 2).
+  { intros Y FY HY. destruct (rust_max_finite Y f64_2 FY F2) as [F V]. split; [exact F|].
+    rewrite V, V2. unfold Rmax. repeat destruct (Rle_dec _ _); lra. }
+  destruct X as [s|[|]| |s m e B].
+  - destruct (rust_min_finite (B754_zero s) rw eq_refl Frw) as [F V].
+    apply Fin; [exact F|]. rewrite V. apply Rmin_r.
+  - rewrite (rust_min_ninf_l _ Frw), (rust_max_ninf_l _ F2). split; [exact F2|].
+    rewrite V2. split; [lra|apply Rmax_r].
+  - rewrite (rust_min_pinf_l _ Frw). apply Fin; [exact Frw | lra].
+  - change (rust_min B754_nan rw) with rw. apply Fin; [exact Frw | lra].
+  - destruct (rust_min_finite (B754_finite s m e B) rw eq_refl Frw) as [F V].
+    apply Fin; [exact F|]. rewrite V. apply Rmin_r.
+Qed.
+
+Lemma finish_cwnd_ok : forall X rw : f64, is_finite rw = true ->
+  cwnd_ok (rust_max (rust_min X rw) f64_2).
+Proof. intros X rw Frw. destruct (finish_ok X rw Frw) as [F [H _]]. right. split; [exact F | lra]. Qed.
+
+(* multiplication by a positive finite float keeps cwnd_ok, overflow included *)
+Lemma fmul_pos_ok : forall c r : f64, cwnd_ok c -> is_finite r = true -> 0 < B2R r ->
+  cwnd_ok (fmul c r).
+Proof.
+  intros c r Hc Fr Hr. destruct (finite_sign r Fr Hr) as (mr & er & Br & Er).
+  destruct Hc as [->|[Fc Hc]].
+  { left. rewrite Er. reflexivity. }
+  destruct (Req_dec (B2R c) 0) as [Z|NZ].
+  - destruct (fmul_correct c r Fc Fr) as [F V].
+    { rewrite Z, Rmult_0_l, Rabs_R0. apply bpow_ge_0. }
+    right. split; [exact F|]. rewrite V, Z, Rmult_0_l, rnd_0. lra.
+  - destruct (finite_sign c Fc) as (mc & ec & Bc & Ec); [lra|].
+    pose proof (Bmult_correct 53 1024 f64_prec_gt_0 f64_prec_lt_emax mode_NE c r) as H.
+    fold (rnd (B2R c * B2R r)) in H. fold (fmul c r) in H.
+    set (P := fmul c r) in *.
+    assert (SC : Bsign c = false) by (rewrite Ec; reflexivity).
+    assert (SR : Bsign r = false) by (rewrite Er; reflexivity).
+    destruct (Rlt_bool (Rabs (rnd (B2R c * B2R r))) (bpow radix2 1024)).
+    + destruct H as (V & F & _). rewrite Fc, Fr in F. right. split; [exact F|].
+      rewrite V. apply rnd_ge_0. nra.
+    + rewrite SC, SR in H. cbn in H. left.
+      destruct P as [s|s| |s m' e' B']; try discriminate H.
+      cbn in H. injection H as ->. reflexivity.
+Qed.
+
+Lemma BETA_pos : 0 < B2R BETA_CUBIC.
+Proof. apply BETA_range. Qed.
+
+Lemma rescale_ok : forall m m', mss_ok m -> mss_ok m' ->
+  is_finite (fdiv (f64_of_Z m) (f64_of_Z m')) = true /\
+  0 < B2R (fdiv (f64_of_Z m) (f64_of_Z m')).
+Proof.
+  intros m m' Hm Hm'. destruct (mss_correct _ Hm) as [F1 V1]. destruct (mss_correct _ Hm') as [F2 V2].
+  pose proof (mss_R _ Hm) as H1. pose proof (mss_R _ Hm') as H2.
+  assert (Hinv : / 65536 <= / IZR m' <= 1).
+  { split; [apply Rinv_le_contravar; lra|]. rewrite <- Rinv_1. apply Rinv_le_contravar; lra. }
+  assert (Hq : / 65536 <= IZR m / IZR m' <= 65536) by (unfold Rdiv; split; nra).
+  destruct (fdiv_correct (f64_of_Z m) (f64_of_Z m') F1) as [Fr Vr].
+  { rewrite V2. lra. }
+  { rewrite V1, V2, Rabs_pos_eq by lra. apply le_bpow_1000. lra. }
+  split; [exact Fr|]. rewrite Vr, V1, V2.
+  apply Rlt_le_trans with (/ 65536); [apply Rinv_0_lt_compat; lra|].
+  apply rnd_ge_fmt; [|lra].
+  replace (/ 65536) with (bpow radix2 (-16)) by reflexivity.
+  apply generic_format_FLT_bpow; [auto with typeclass_instances | lia].
+Qed.
+
+Lemma f64_1_ok : cwnd_ok f64_1.
+Proof. right. destruct f64_1_correct as [F V]. split; [exact F|]. rewrite V. lra. Qed.
+
+Lemma rust_max_2_ok : forall x : f64, cwnd_ok x -> cwnd_ok (rust_max x f64_2).
+Proof.
+  intros x [->|[F H]]; destruct f64_2_correct as [F2 V2].
+  - left. apply rust_max_pinf_l. exact F2.
+  - destruct (rust_max_finite x f64_2 F F2) as [F' V']. right. split; [exact F'|].
+    rewrite V', V2. apply Rle_trans with 2; [lra | apply Rmax_r].
+Qed.
+
+Section Steps.
+Variable cbrt : f64 -> f64.
+Variable powf3 : f64 -> f64.
+
+Lemma on_ack_cases : forall s now len rtt s', cubic_on_ack powf3 s now len rtt = Some s' ->
+  s' = s \/ exists X, s' = cubic_with_cwnd s (rust_max (rust_min X (rwnd s)) f64_2).
+Proof.
+  intros s now len rtt s' E. unfold cubic_on_ack in E.
+  destruct (len =? 0)%Z; [injection E as <-; left; reflexivity|].
+  destruct (fge (cwnd s) (rwnd s)); [injection E as <-; left; reflexivity|].
+  destruct (flt (cwnd s) (ssthresh s)); [injection E as <-; right; eexists; reflexivity|].
+  destruct (flt _ _); [injection E as <-; right; eexists; reflexivity|].
+  destruct (cu_dur_add _ _); cbn [bind] in E; [|discriminate E].
+  injection E as <-; right; eexists; reflexivity.
+Qed.
+
+(* cwnd and ssthresh stay +inf-or-finite-nonnegative under every operation *)
+Lemma step_cwnd_ok : forall s o s', mss_ok (mss s) -> is_finite (rwnd s) = true ->
+  c15_op_dom o = true -> cwnd_ok (cwnd s) -> cwnd_ok (ssthresh s) ->
+  cubic_step cbrt powf3 s o = Some s' -> cwnd_ok (cwnd s') /\ cwnd_ok (ssthresh s').
+Proof.
+  intros s o s' Hm Frw Hd Hc Hs E.
+  destruct o as [win|now len rtt| |now|cb sb|m']; cbn [cubic_step] in E.
+  - injection E as <-. split; assumption.
+  - destruct (on_ack_cases _ _ _ _ _ E) as [->|[X ->]]; [split; assumption|].
+    cbn [cubic_with_cwnd cwnd ssthresh]. split; [apply finish_cwnd_ok; exact Frw | exact Hs].
+  - injection E as <-. cbn [cubic_on_retransmission_timeout cwnd ssthresh].
+    split; [exact f64_1_ok|]. apply rust_max_2_ok, fmul_pos_ok; [exact Hc | exact BETA_finite | exact BETA_pos].
+  - injection E as <-. cbn [cubic_on_enter_recovery cwnd ssthresh].
+    assert (cwnd_ok (fmul (cwnd s) BETA_CUBIC))
+      by (apply fmul_pos_ok; [exact Hc | exact BETA_finite | exact BETA_pos]).
+    split; [assumption | apply rust_max_2_ok; assumption].
+  - injection E as <-. cbn [cubic_on_recovered cwnd ssthresh].
+    split; [apply finish_cwnd_ok; exact Frw|].
+    unfold c15_op_dom in Hd. apply andb_true_iff in Hd. destruct Hd as [_ Hd].
+    assert (Hsb : (0 <= sb < 2 ^ 32)%Z) by (unfold c15_u32, M32 in Hd; lia).
+    destruct (set_rw_ok _ _ Hm Hsb) as [[F H] _]. right. split; [exact F | apply H].
+  - injection E as <-. unfold cubic_set_mss. destruct (mss s =? m')%Z; [split; assumption|].
+    cbn [cwnd ssthresh]. unfold c15_op_dom in Hd. apply mss_ok_b in Hd.
+    destruct (rescale_ok _ _ Hm Hd) as [Fr Hr].
+    split; apply fmul_pos_ok; assumption.
+Qed.
+End Steps.
+
+(* ---- sshthresh() as a real number *)
+Lemma sshthresh_val : forall (S : f64) m, mss_ok m -> is_finite S = true ->
+  0 <= B2R S <= 8589934592 ->
+  usize_of_f64 (fmul S (f64_of_Z m)) = Ztrunc (rnd (B2R S * IZR m)).
+Proof.
+  intros S m Hm FS HS. destruct (mss_correct _ Hm) as [Fm Vm]. pose proof (mss_R _ Hm) as HM.
+  assert (Hp : 0 <= B2R S * IZR m <= 562949953421312) by (split; nra).
+  destruct (fmul_correct S (f64_of_Z m) FS Fm) as [Fp Vp].
+  { rewrite Vm, Rabs_pos_eq by lra. apply le_bpow_1000. lra. }
+  rewrite (usize_of_finite _ Fp), Vp, Vm.
+  assert (0 <= Ztrunc (rnd (B2R S * IZR m)) <= 562949953421312)%Z.
+  { split.
+    - rewrite <- (Ztrunc_IZR 0). apply Ztrunc_le. apply rnd_ge_0. lra.
+    - rewrite <- (Ztrunc_IZR 562949953421312). apply Ztrunc_le.
+      apply rnd_le_fmt; [apply (fmt_Z 562949953421312); lia | lra]. }
+  unfold USIZE_MAX, M64. lia.
+Qed.
+
+(* lower bound on usize(X * mss) that survives overflow of the product to +inf *)
+Lemma usize_fmul_ge : forall (X : f64) m n, mss_ok m -> is_finite X = true -> 0 < B2R X ->
+  (0 <= n <= USIZE_MAX)%Z -> IZR n <= rnd (B2R X * IZR m) ->
+  (n <= usize_of_f64 (fmul X (f64_of_Z m)))%Z.
+Proof.
+  intros X m n Hm FX HX Hn H.
+  destruct (mss_correct m Hm) as [Fm Vm]. destruct (mss_shape m Hm) as (mm & em & Bm & Em).
+  destruct (finite_sign X FX HX) as (mx & ex & Bx & EX).
+  pose proof (Bmult_correct 53 1024 f64_prec_gt_0 f64_prec_lt_emax mode_NE X (f64_of_Z m)) as HB.
+  fold (rnd (B2R X * B2R (f64_of_Z m))) in HB. fold (fmul X (f64_of_Z m)) in HB.
+  set (P := fmul X (f64_of_Z m)) in *.
+  assert (SX : Bsign X = false) by (rewrite EX; reflexivity).
+  assert (SM : Bsign (f64_of_Z m) = false) by (rewrite Em; reflexivity).
+  destruct (Rlt_bool (Rabs (rnd (B2R X * B2R (f64_of_Z m)))) (bpow radix2 1024)).
+  - destruct HB as (V & F & _). rewrite FX, Fm in F.
+    apply usize_ge_of_real; [exact F | exact Hn |]. rewrite V, Vm. exact H.
+  - rewrite SX, SM in HB. cbn in HB.
+    destruct P as [s|s| |s m' e' B']; try discriminate HB.
+    cbn in HB. injection HB as ->. cbn. exact (proj2 Hn).
+Qed.
+
+Lemma BETA_exact : B2R BETA_CUBIC = 7 / 10 - 4 / 10 * / 9007199254740992.
+Proof. rewrite BETA_val. field. Qed.
+
+Lemma window_range : forall s, mss_ok (mss s) -> rwnd_ok (rwnd s) ->
+  (0 <= cubic_window s <= 281474976710656)%Z.
+Proof.
+  intros s Hm Hok. destruct (window_val s Hm Hok) as [E [H0 H1]]. rewrite E. split.
+  - rewrite <- (Ztrunc_IZR 0). apply Ztrunc_le. exact H0.
+  - rewrite <- (Ztrunc_IZR 281474976710656). apply Ztrunc_le. exact H1.
+Qed.
+
+Lemma Ztrunc_le_self : forall x, 0 <= x -> IZR (Ztrunc x) <= x.
+Proof. intros x H. rewrite Ztrunc_floor by exact H. apply Zfloor_lb. Qed.
+
+Lemma Ztrunc_gt_pred : forall x, 0 <= x -> x < IZR (Ztrunc x) + 1.
+Proof. intros x H. rewrite Ztrunc_floor by exact H. apply Zfloor_ub. Qed.
+
+(* the real-number core of the lower ssthresh clause: 0.7 * window <= sshthresh + 1 *)
+Lemma ss_lower_real : forall v M, 0 <= v <= 4294967296 -> 1 <= M <= 65535 ->
+  let R0 := rnd (rnd (v * B2R BETA_CUBIC) * M) in
+  0 <= R0 /\ (7 * Ztrunc (rnd (v * M)) <= 10 * (Ztrunc R0 + 1))%Z.
+Proof.
+  intros v M Hv HM R0. pose proof BETA_exact as Eb.
+  assert (Hb : 0 <= v * B2R BETA_CUBIC <= 4294967296) by (rewrite Eb; split; nra).
+  pose proof (err_2_32 _ Hb) as E1. apply Rabs_le_inv in E1.
+  set (S0 := rnd (v * B2R BETA_CUBIC)) in *.
+  assert (HS0 : 0 <= S0) by (apply rnd_ge_0; lra).
+  assert (Hx : 0 <= v * M <= 281474976710656) by (split; nra).
+  assert (HvbM : v * B2R BETA_CUBIC * M = 7 / 10 * (v * M) - 4 / 10 * / 9007199254740992 * (v * M))
+    by (rewrite Eb; ring).
+  assert (HSM : 0 <= S0 * M <= 281474976710656).
+  { split; [nra|].
+    assert (S0 * M <= v * B2R BETA_CUBIC * M + / 4194304 * M) by nra. nra. }
+  pose proof (err_2_48 _ HSM) as E2. apply Rabs_le_inv in E2. fold R0 in E2.
+  pose proof (err_2_48 _ Hx) as E3. apply Rabs_le_inv in E3.
+  assert (HR0 : 0 <= R0) by (apply rnd_ge_0; lra).
+  split; [exact HR0|].
+  set (W := rnd (v * M)) in *.
+  assert (HW : 0 <= W) by (apply rnd_ge_0; lra).
+  pose proof (Ztrunc_le_self W HW) as Hw. pose proof (Ztrunc_gt_pred R0 HR0) as Hn.
+  set (w := Ztrunc W) in *. set (n := Ztrunc R0) in *.
+  assert (Hlow : S0 * M >= v * B2R BETA_CUBIC * M - / 64) by nra.
+  assert (Hfin : IZR (7 * w - 1) < IZR (10 * (n + 1))).
+  { rewrite minus_IZR, !mult_IZR, plus_IZR. nra. }
+  apply lt_IZR in Hfin. lia.
+Qed.
+
+(* RTO / enter-recovery: 7 * window_before <= 10 * (sshthresh_after + 1), every reachable state *)
+Lemma ss_lower : forall s, mss_ok (mss s) -> rwnd_ok (rwnd s) -> cwnd_ok (cwnd s) ->
+  (7 * cubic_window s <=
+   10 * (usize_of_f64 (fmul (rust_max (fmul (cwnd s) BETA_CUBIC) f64_2) (f64_of_Z (mss s))) + 1))%Z.
+Proof.
+  intros s Hm Hok Hc. destruct f64_2_correct as [F2 V2].
+  pose proof (window_range s Hm Hok) as Hwr.
+  destruct Hc as [Ec|[Fc Hc]].
+  - rewrite Ec. destruct BETA_shape as (mb & eb & Bb & EB). rewrite EB.
+    change (fmul (B754_infinity false) (B754_finite false mb eb Bb)) with f64_inf.
+    unfold f64_inf.
+    rewrite (rust_max_pinf_l _ F2). destruct (mss_shape _ Hm) as (mm & em & Bm & Em). rewrite Em.
+    assert (EU : usize_of_f64 (fmul f64_inf (B754_finite false mm em Bm)) = USIZE_MAX) by reflexivity.
+    unfold f64_inf in EU. rewrite EU.
+    unfold USIZE_MAX, M64. lia.
+  - pose proof BETA_range as Hbeta.
+    destruct (fmul_correct_le (cwnd s) BETA_CUBIC (cwnd s) Fc BETA_finite) as [Ft Vt].
+    { rewrite Rabs_mult, (Rabs_pos_eq (B2R BETA_CUBIC)) by lra. pose proof (Rabs_pos (B2R (cwnd s))). nra. }
+    destruct (rust_max_finite _ f64_2 Ft F2) as [FS VS]. rewrite Vt, V2 in VS.
+    set (S := rust_max (fmul (cwnd s) BETA_CUBIC) f64_2) in *.
+    rewrite (window_val_fin s Hm Hok Fc). destruct Hok as [Frw Hrw].
+    destruct (clamp_range (B2R (cwnd s)) (B2R (rwnd s)) (proj1 Hrw)) as [V0 V1].
+    set (c := B2R (cwnd s)) in *. set (rho := B2R (rwnd s)) in *. set (v := clamp c rho) in *.
+    pose proof (mss_R _ Hm) as HM.
+    assert (Hv : 0 <= v <= 4294967296) by lra.
+    destruct (ss_lower_real v (IZR (mss s)) Hv HM) as [HR0 Hmain]. cbv zeta in HR0, Hmain.
+    set (R0 := rnd (rnd (v * B2R BETA_CUBIC) * IZR (mss s))) in *.
+    assert (HS0 : rnd (v * B2R BETA_CUBIC) <= B2R S).
+    { rewrite VS. destruct (Rle_dec v c) as [L|L].
+      - apply Rle_trans with (rnd (c * B2R BETA_CUBIC)); [apply rnd_le; nra | apply Rmax_l].
+      - assert (v <= 2) by (unfold v, clamp, Rmin, Rmax in *; repeat destruct (Rle_dec _ _); lra).
+        apply Rle_trans with 2; [|apply Rmax_r].
+        apply rnd_le_fmt; [apply (fmt_Z 2); lia | nra]. }
+    assert (HSpos : 0 < B2R S) by (rewrite VS; apply Rlt_le_trans with 2; [lra | apply Rmax_r]).
+    assert (Hn : (0 <= Ztrunc R0 <= USIZE_MAX)%Z).
+    { split; [rewrite <- (Ztrunc_IZR 0); apply Ztrunc_le; exact HR0|].
+      assert (Ztrunc R0 <= 281474976710656)%Z; [|unfold USIZE_MAX, M64; lia].
+      rewrite <- (Ztrunc_IZR 281474976710656). apply Ztrunc_le. unfold R0.
+      apply rnd_le_fmt; [exact pow48_fmt|].
+      assert (0 <= v * B2R BETA_CUBIC <= 4294967296) by (split; nra).
+      assert (rnd (v * B2R BETA_CUBIC) <= 4294967296) by (apply rnd_le_fmt; [exact pow32_fmt | lra]).
+      assert (0 <= rnd (v * B2R BETA_CUBIC)) by (apply rnd_ge_0; lra). nra. }
+    assert (Hge : (Ztrunc R0 <= usize_of_f64 (fmul S (f64_of_Z (mss s))))%Z).
+    { apply usize_fmul_ge; [exact Hm | exact FS | exact HSpos | exact Hn |].
+      apply Rle_trans with R0; [apply Ztrunc_le_self; exact HR0|].
+      unfold R0. apply rnd_le.
+      assert (0 <= rnd (v * B2R BETA_CUBIC)) by (apply rnd_ge_0; nra). nra. }
+    lia.
+Qed.
+
+(* the stored peer window fl(win/mss), back in bytes *)
+Lemma rho_bytes : forall m win, mss_ok m -> (0 <= win < 2 ^ 32)%Z ->
+  let rho := rnd (IZR win / IZR m) in
+  0 <= rho <= 4294967296 /\ IZR win - / 64 <= rho * IZR m <= IZR win + / 64.
+Proof.
+  intros m win Hm Hw rho. pose proof (mss_R _ Hm) as HM.
+  assert (Hw' : 0 <= IZR win <= 4294967295) by (split; apply IZR_le; lia).
+  assert (Hinv : / 65536 <= / IZR m <= 1).
+  { split; [apply Rinv_le_contravar; lra|]. rewrite <- Rinv_1. apply Rinv_le_contravar; lra. }
+  assert (Hq : 0 <= IZR win / IZR m <= 4294967296) by (unfold Rdiv; split; nra).
+  pose proof (err_2_32 _ Hq) as E. apply Rabs_le_inv in E. fold rho in E.
+  assert (Em : IZR win / IZR m * IZR m = IZR win) by (field; lra).
+  split.
+  - split; [apply rnd_ge_0; lra | apply rnd_le_fmt; [exact pow32_fmt | lra]].
+  - split; nra.
+Qed.
+
+(* RTO / enter-recovery, upper clause: with the peer window in force and cwnd <= max(rwnd, 2) *)
+Lemma ss_upper : forall s win, mss_ok (mss s) -> (0 <= win < 2 ^ 32)%Z ->
+  is_finite (rwnd s) = true -> B2R (rwnd s) = rnd (IZR win / IZR (mss s)) ->
+  is_finite (cwnd s) = true -> 0 <= B2R (cwnd s) <= Rmax (B2R (rwnd s)) 2 ->
+  (usize_of_f64 (fmul (rust_max (fmul (cwnd s) BETA_CUBIC) f64_2) (f64_of_Z (mss s)))
+   <= Z.max (2 * mss s) ((7 * (cubic_window s + 1)) / 10 + 1))%Z.
+Proof.
+  intros s win Hm Hw Frw Vrw Fc Hc. destruct f64_2_correct as [F2 V2].
+  destruct (rho_bytes _ _ Hm Hw) as [Hrho HrM]. cbv zeta in Hrho, HrM. rewrite <- Vrw in Hrho, HrM.
+  assert (Hok : rwnd_ok (rwnd s)) by (split; assumption).
+  pose proof BETA_range as Hbeta. pose proof BETA_exact as Eb. pose proof (mss_R _ Hm) as HM.
+  destruct (fmul_correct_le (cwnd s) BETA_CUBIC (cwnd s) Fc BETA_finite) as [Ft Vt].
+  { rewrite Rabs_mult, (Rabs_pos_eq (B2R BETA_CUBIC)) by lra. pose proof (Rabs_pos (B2R (cwnd s))). nra. }
+  destruct (rust_max_finite _ f64_2 Ft F2) as [FS VS]. rewrite Vt, V2 in VS.
+  set (S := rust_max (fmul (cwnd s) BETA_CUBIC) f64_2) in *.
+  rewrite (window_val_fin s Hm Hok Fc).
+  set (c := B2R (cwnd s)) in *. set (rho := B2R (rwnd s)) in *. set (M := IZR (mss s)) in *.
+  set (t := rnd (c * B2R BETA_CUBIC)) in *.
+  assert (Ht0 : 0 <= t) by (apply rnd_ge_0; nra).
+  assert (Htc : t <= c) by (apply rnd_le_fmt; [apply fmt_B2R | nra]).
+  assert (Hcmax : c <= 4294967296) by (destruct Hc as [_ Hc]; unfold Rmax in Hc; destruct (Rle_dec _ _); lra).
+  assert (HS : 0 <= B2R S <= 8589934592).
+  { rewrite VS. unfold Rmax. destruct (Rle_dec _ _); lra. }
+  rewrite (sshthresh_val S _ Hm FS HS), VS. fold M.
+  destruct (Rle_dec t 2) as [L|L].
+  - rewrite Rmax_right by exact L.
+    replace (2 * M) with (IZR (2 * mss s)) by (rewrite mult_IZR; reflexivity).
+    rewrite rnd_generic by (apply fmt_Z; unfold mss_ok in Hm; lia).
+    rewrite Ztrunc_IZR. lia.
+  - rewrite Rmax_left by lra.
+    assert (Hc2 : 2 < c) by lra.
+    assert (Hcr : c <= rho) by (destruct Hc as [_ Hc]; unfold Rmax in Hc; destruct (Rle_dec _ _); lra).
+    assert (Ev : clamp c rho = c) by (unfold clamp, Rmin, Rmax; repeat destruct (Rle_dec _ _); lra).
+    rewrite Ev.
+    assert (Hx : 0 <= c * M <= 4294967296).
+    { split; [nra|]. assert (IZR win <= 4294967295) by (apply IZR_le; lia). nra. }
+    assert (Hcb : 0 <= c * B2R BETA_CUBIC <= 4294967296) by (split; nra).
+    pose proof (err_2_32 _ Hcb) as E1. apply Rabs_le_inv in E1. fold t in E1.
+    assert (HtM : 0 <= t * M <= 8589934592) by (split; nra).
+    pose proof (err_2_33 _ HtM) as E2. apply Rabs_le_inv in E2.
+    assert (Hx' : 0 <= c * M <= 8589934592) by lra.
+    pose proof (err_2_33 _ Hx') as E3. apply Rabs_le_inv in E3.
+    set (R := rnd (t * M)) in *. set (W := rnd (c * M)) in *.
+    assert (HR : 0 <= R) by (apply rnd_ge_0; lra).
+    assert (HW : 0 <= W) by (apply rnd_ge_0; lra).
+    pose proof (Ztrunc_le_self R HR) as Hss. pose proof (Ztrunc_gt_pred W HW) as Hw1.
+    set (ss := Ztrunc R) in *. set (w := Ztrunc W) in *.
+    assert (HtM' : t * M <= 7 / 10 * (c * M) + / 64).
+    { assert (t * M <= c * B2R BETA_CUBIC * M + / 4194304 * M) by nra.
+      assert (c * B2R BETA_CUBIC * M <= 7 / 10 * (c * M)) by (rewrite Eb; nra). nra. }
+    assert (Hfin : IZR (10 * ss) < IZR (7 * (w + 1) + 1)).
+    { rewrite plus_IZR, !mult_IZR, plus_IZR. lra. }
+    apply lt_IZR in Hfin. lia.
+Qed.
+
+Lemma clampR_small : forall (c : f64) rho, 0 <= rho <= 2 -> clampR c rho = rho.
+Proof.
+  intros c rho H. unfold clampR.
+  destruct c as [s|[|]| |s m e B]; try generalize (B2R (B754_finite s m e B)); try intros x;
+    cbn [B2R]; unfold Rmin, Rmax; repeat destruct (Rle_dec _ _); lra.
+Qed.
+
+Section AckFine.
+Variable powf3 : f64 -> f64.
+
+(* on_ack outside slow start (cwnd >= ssthresh as floats): either the byte window cannot move
+   (peer window below two segments) or sshthresh() <= window(), so the guard of the clause is off *)
+Lemma ack_tail_fine : forall s (X : f64) len,
+  mss_ok (mss s) -> rwnd_ok (rwnd s) -> is_finite (cwnd s) = true -> 0 <= B2R (cwnd s) ->
+  cwnd_ok (ssthresh s) -> (0 <= len)%Z ->
+  fge (cwnd s) (rwnd s) = false -> flt (cwnd s) (ssthresh s) = false ->
+  (cubic_window s < cubic_sshthresh s)%Z ->
+  (cubic_window (cubic_with_cwnd s (rust_max (rust_min X (rwnd s)) f64_2))
+   <= cubic_window s + len + 1)%Z.
+Proof.
+  intros s X len Hm Hok Fc Hc0 Hs Hl Hge Hlt Hguard.
+  set (s' := cubic_with_cwnd s (rust_max (rust_min X (rwnd s)) f64_2)).
+  pose proof Hok as [Frw Hrw].
+  assert (Hcr : B2R (cwnd s) < B2R (rwnd s)).
+  { unfold fge in Hge. rewrite (Bleb_correct 53 1024 _ _ Frw Fc) in Hge.
+    destruct (Rle_bool_spec (B2R (rwnd s)) (B2R (cwnd s))); [discriminate|assumption]. }
+  destruct (Rle_dec (B2R (rwnd s)) 2) as [Small|Big].
+  - destruct (window_val s Hm Hok) as [E _].
+    destruct (window_val s' Hm Hok) as [E' _].
+    rewrite E, E'. change (rwnd s') with (rwnd s). change (mss s') with (mss s).
+    rewrite !clampR_small by lra. lia.
+  - exfalso. destruct Hs as [Es|[Fs Hs0]].
+    + unfold flt in Hlt. rewrite Es in Hlt. destruct (cwnd s); try discriminate Fc; discriminate Hlt.
+    + unfold flt in Hlt. rewrite (Bltb_finite _ _ Fc Fs) in Hlt.
+      destruct (Rlt_bool_spec (B2R (cwnd s)) (B2R (ssthresh s))) as [|Hts]; [discriminate|].
+      unfold cubic_sshthresh in Hguard.
+      rewrite (sshthresh_val (ssthresh s) _ Hm Fs) in Hguard by lra.
+      rewrite (window_val_fin s Hm Hok Fc) in Hguard.
+      pose proof (mss_R _ Hm) as HM.
+      assert (Hv : B2R (cwnd s) <= clamp (B2R (cwnd s)) (B2R (rwnd s)))
+        by (unfold clamp, Rmin, Rmax; repeat destruct (Rle_dec _ _); lra).
+      assert (Ztrunc (rnd (B2R (ssthresh s) * IZR (mss s)))
+              <= Ztrunc (rnd (clamp (B2R (cwnd s)) (B2R (rwnd s)) * IZR (mss s))))%Z
+        by (apply Ztrunc_le, rnd_le; nra).
+      lia.
+Qed.
+
+Lemma on_ack_fine : forall s now len rtt s',
+  mss_ok (mss s) -> rwnd_ok (rwnd s) -> cwnd_ok (cwnd s) -> cwnd_ok (ssthresh s) ->
+  (0 <= len < 2 ^ 32)%Z -> cubic_on_ack powf3 s now len rtt = Some s' ->
+  (cubic_window s < cubic_sshthresh s)%Z ->
+  (cubic_window s' <= cubic_window s + len + 1)%Z.
+Proof.
+  intros s now len rtt s' Hm Hok Hc Hs Hl E Hguard.
+  destruct Hc as [Ec|[Fc Hc0]].
+  - unfold cubic_on_ack in E. destruct (len =? 0)%Z; [injection E as <-; lia|].
+    assert (Hge : fge (cwnd s) (rwnd s) = true).
+    { rewrite Ec. destruct Hok as [Frw _]. destruct (rwnd s); try discriminate Frw; reflexivity. }
+    rewrite Hge in E. injection E as <-. lia.
+  - destruct (flt (cwnd s) (ssthresh s)) eqn:Hlt.
+    + destruct (slow_start_bytes powf3 s now len rtt Hm Hok Hl Fc Hc0 Hlt) as (s'' & E' & _ & _ & _ & _ & Hb).
+      rewrite E in E'. injection E' as <-. lia.
+    + unfold cubic_on_ack in E. destruct (len =? 0)%Z; [injection E as <-; lia|].
+      destruct (fge (cwnd s) (rwnd s)) eqn:Hge; [injection E as <-; lia|].
+      rewrite Hlt in E.
+      destruct (flt _ _).
+      * injection E as <-. apply ack_tail_fine; try assumption; lia.
+      * destruct (cu_dur_add _ _); cbn [bind] in E; [|discriminate E].
+        injection E as <-. apply ack_tail_fine; try assumption; lia.
+Qed.
+End AckFine.
